@@ -44,6 +44,10 @@ type Property struct {
 	Isolated bool
 	// MarkEveryRun: print a start marker before every run (exact hang attribution)
 	MarkEveryRun bool
+	// StallS: seconds without a sign of life after which a worker counts as
+	// stalled (0 = 120).  Engines whose runs take microseconds set it low, so
+	// that a run that hangs inside the library is isolated in minutes.
+	StallS int
 }
 
 var registry = map[string]*Property{}
